@@ -23,7 +23,7 @@ type LoadSpec struct {
 }
 
 var coreRW = LoadSpec{"core", []string{"./writer", "./reader", "./util", "./meta", "./api", "./model"}}
-var serverAll = LoadSpec{"server", []string{".", "./store", "./msgpacker", "./metrics", "./model/request", "./model/meta", "./model"}}
+var serverAll = LoadSpec{"server", []string{".", "./store", "./msgpacker", "./metrics", "./model/request", "./model/meta", "./model", "./api"}}
 
 var props = map[string]PropSpec{
 	"C01": {[]LoadSpec{coreRW}},
@@ -123,6 +123,7 @@ func cmdCheck(args []string) int {
 	keep := fs.Bool("keep", false, "keep SMT files")
 	verbose := fs.Bool("v", false, "verbose")
 	noEvidence := fs.Bool("no-evidence", false, "do not write evidence (selftest runs)")
+	showNotes := fs.Bool("notes", false, "print abstraction notes per function")
 	fs.Parse(args)
 	repoRoot = *repo
 	t0 := time.Now()
@@ -205,6 +206,11 @@ func cmdCheck(args []string) int {
 		}
 		for _, o := range t.u.Obligs {
 			jobs = append(jobs, &job{u: t.u, o: o})
+		}
+		if *showNotes {
+			for _, n := range t.u.Notes {
+				fmt.Fprintf(os.Stderr, "NOTE %s: %s\n", t.c.Key, n)
+			}
 		}
 	}
 	// lemmas
